@@ -146,6 +146,19 @@ func runWire(c *ctx) error {
 			}
 			return as, map[string][]byte{"key": as.PublicKey[:], "banned": bn, "loclen": {byte(ll)}, "loc": []byte(as.Location), "http": b16(as.HttpPort), "tcp": b16(as.TcpPort), "udp": b16(as.UdpPort), "sig": as.GCAAuthorization[:]}
 		}
+		// a location longer than the one-byte length field can express: every byte of it is still covered by the signing bytes
+		{
+			ll := []int{256, 257, 300, 1000}[rng.Intn(4)]
+			a1, _ := mkServer()
+			a1.Location = strings.Repeat("q", ll)
+			a2 := a1
+			pos := 255 + rng.Intn(ll-255)
+			a2.Location = a1.Location[:pos] + "r" + a1.Location[pos+1:]
+			pub, priv := glow.GenerateKeyPair()
+			sg := glow.Sign(a1.SigningBytes(), priv)
+			t.Emit(hx.J{"a": "Tail", "len": ll, "pos": pos, "sbsame": bytes.Equal(a1.SigningBytes(), a2.SigningBytes()),
+				"selfverifies": glow.Verify(pub, a1.SigningBytes(), sg), "crossverifies": glow.Verify(pub, a2.SigningBytes(), sg)})
+		}
 		as, fs := mkServer()
 		t.Emit(hx.J{"a": "Enc", "typ": "server", "fields": fields(fs), "ser": ints(as.Serialize()), "sb": ints(as.SigningBytes()), "sbdet": bytes.Equal(as.SigningBytes(), as.SigningBytes())})
 		// migration order with 0..3 servers
@@ -293,7 +306,9 @@ func runWire(c *ctx) error {
 				rej++
 			}
 		}
-		t.Emit(hx.J{"a": "Sig", "det": s1 == s2, "verifies": glow.Verify(pub, msg, s1), "flips": flips, "flipsrejected": rej})
+		// the second algebraic encoding (r, N-s) of the signature is not accepted
+		t.Emit(hx.J{"a": "Sig", "det": s1 == s2, "verifies": glow.Verify(pub, msg, s1), "flips": flips, "flipsrejected": rej,
+			"mallverifies": glow.Verify(pub, msg, hx.Malleate(s1))})
 	}
 	c.summary["events"] = t.Events
 	c.summary["counts"] = t.Counts
